@@ -11,8 +11,9 @@
      flows/runs/summary.go   relatedRunContext.Context, FormatRunSummary
      utils/text.go           PrefixOverlap
      contactql/visitor.go    visitor.VisitImplicitCondition, VisitCondition, combinations
-     contactql/parser.go     Condition.validate (operator/value part), BoolCombination, Simplify, ParseQuery's
-                             redaction-dependent preprocessing
+     contactql/parser.go     Condition.validate (operator/value part), BoolCombination; ParseQuery from the parse
+                             tree on (lexing, ANTLR parsing, the bare-phone-number rewrite and Simplify are outside:
+                             the harness hands over the parse tree and compares the conditions in order)
      contactql/evaluator.go  evaluateCondition (existence checks and text comparison on URN values)
 
    The context is a tree (xv).  Everything in it that the code computes from a URN is computed here from the
@@ -412,6 +413,34 @@ Definition keys_covered (src : list (string * list (string * key_class))) : bool
              | None => forallb (fun kc => key_class_eqb (snd kc) KPlain) (snd entry)
              end) src
   && forallb (fun entry => match find_keys (fst entry) src with Some _ => true | None => false end) model_keys.
+
+(* What the evaluator is handed besides the context is an envs.Environment.  Methods of the environment types built
+   under flows/ (sessionEnvironment, assetsEnvironment), with whether they touch a URN: env_view carries exactly
+   the URN-touching ones (DefaultCountry; DefaultLocale = language + DefaultCountry) next to the policy. *)
+Definition model_env_methods : list (string * bool) :=
+  [ ("flows.assetsEnvironment.LocationResolver", false);
+    ("flows.sessionEnvironment.DefaultCountry", true);
+    ("flows.sessionEnvironment.DefaultLanguage", false);
+    ("flows.sessionEnvironment.DefaultLocale", true);
+    ("flows.sessionEnvironment.Timezone", false) ].
+
+(* functions under flows/ that hand a types.XValue to the context directly: the two URN sinks transcribed above
+   (urn_to_xvalue, urns_to_xvalue) touch URNs, the others do not *)
+Definition model_value_builders : list (string * bool) :=
+  [ ("flows.ContactURN.ToXValue", true);
+    ("flows.FieldValue.ToXValue", false);
+    ("flows.Group.ToXValue", false);
+    ("flows.GroupList.ToXValue", false);
+    ("flows.URNList.ToXValue", true);
+    ("runs.Path.ToXValue", false);
+    ("runs.legacyExtra.ToXValue", false) ].
+
+Fixpoint rows_eqb (a b : list (string * bool)) : bool :=
+  match a, b with
+  | [], [] => true
+  | (k, x) :: a', (k', y) :: b' => String.eqb k k' && Bool.eqb x y && rows_eqb a' b'
+  | _, _ => false
+  end.
 
 (* does the tree built by the model have, at every transcribed builder, exactly the keys of the table? *)
 Definition table_keys (ty : string) : list string :=
